@@ -29,7 +29,7 @@ def describe(rep):
              ChebychevHelper.get_Neumann_BC_row, ChebychevHelper.get_integ_BC_row, ChebychevHelper.get_integration_weights, UltrasphericalHelper.get_differentiation_matrix,
              UltrasphericalHelper.get_S, UltrasphericalHelper.get_basis_change_matrix, UltrasphericalHelper.get_integration_matrix, SpectralHelper.expand_matrix_ND)
     rep.explanation = __doc__
-    rep.rule = 'case = (helper, N, operator, derivative order / interval); one SMT query over all coefficient vectors in the unit box'
+    rep.rule = 'case = (helper, N, operator, derivative order / interval; N-D tensor-product cases also on long / short intervals with derivative orders 1-3, tolerance relative to the largest 1-D entry); one SMT query over all coefficient vectors in the unit box'
     rep.assume('tolerance 1e-10 * (sum of absolute monomial conversion coefficients): the matrices are float64',
                'the interval map is x = fac * s + off with s in [-1,1]; operators that carry the map are checked on [x0,x1] = [-1,1], [0,1], [-2,5]')
     rep.out_of_scope('transforms in more than one dimension, padded / truncated transforms (shape argument), MPI transforms',
